@@ -25,7 +25,7 @@ register(
     "C01",
     "struct",
     quick=50000,
-    thorough=1500000,
+    thorough=1000000,
     level="fault_enumeration",
     title="links always describe one consistent forest",
     rule=STRUCT_RULE,
@@ -47,7 +47,7 @@ register(
     "C03",
     "struct",
     quick=60000,
-    thorough=1500000,
+    thorough=1000000,
     level="fault_enumeration",
     title="a refused or vetoed change leaves the forest untouched",
     rule=STRUCT_RULE,
@@ -58,7 +58,7 @@ register(
     "C16",
     "struct",
     quick=40000,
-    thorough=1500000,
+    thorough=500000,
     level="fault_enumeration",
     title="hooks fire exactly once, in order, observing the right state",
     rule=STRUCT_RULE,
